@@ -42,8 +42,11 @@ QD   == 6
 Menu == {0, 2, 3, 4, 6}
 NONE == <<>>
 
-VARIABLES iid, w, tn, round, orc, phase, pm, sr, mp, acc, cls, SR, V, Q, occ, ival
-vars == <<iid, w, tn, round, orc, phase, pm, sr, mp, acc, cls, SR, V, Q, occ, ival>>
+VARIABLES iid, w, tn, wa, round, orc, phase, pm, sr, mp, acc, cls, SR, V, Q, occ, ival
+vars == <<iid, w, tn, wa, round, orc, phase, pm, sr, mp, acc, cls, SR, V, Q, occ, ival>>
+\* orc[1]: oracle of (M, w).  wa / orc[2]: the other surrogate of a policy with rare entries and its oracle
+\* (one call site of Oracle only: TLC's coverage mode expands operator bodies per call site and runs out
+\* of memory with two)
 
 M == Batch[iid]
 
@@ -196,7 +199,7 @@ CW == IF round = 1 THEN w ELSE PresentW(M, w, M.sp, M.ap)
 
 Init ==
   /\ iid \in 1..Len(Batch)
-  /\ \E pc \in PolChoices(Batch[iid]) : w = pc[1] /\ tn = pc[2]
+  /\ \E pc \in PolChoices(Batch[iid]) : w = pc[1] /\ tn = pc[2] /\ wa = AltPolicy(Batch[iid], pc[1], pc[2])
   /\ round = 1
   /\ orc = NONE
   /\ phase = "init"
@@ -204,10 +207,11 @@ Init ==
   /\ V = NONE /\ Q = NONE /\ occ = NONE /\ ival = NONE
 
 Step(from, to) == phase = from /\ phase' = to
-Fixed == UNCHANGED <<iid, w, tn, round>>
+Fixed == UNCHANGED <<iid, w, tn, wa, round>>
 
 \* the ground truth of the pair (kept out of Init: TLC evaluates initial states in a single thread)
-Ground       == Step("init", "start") /\ orc' = Oracle(M, w)
+Ground       == Step("init", "start")
+                /\ orc' = [k \in (IF RareStates(M, tn) = {} THEN {1} ELSE {1, 2}) |-> Oracle(M, IF k = 1 THEN w ELSE wa)]
                 /\ Fixed /\ UNCHANGED <<pm, sr, mp, acc, cls, SR, V, Q, occ, ival>>
 \* policy_matrix = self._policy_matrix_on(mdp): rows in the order of mdp.state_list, columns in the
 \* order of mdp.action_list, recomputed for the MDP at hand (also Policy.to_tabular)
@@ -272,7 +276,7 @@ Reuse ==
   /\ round' = 2 /\ phase' = "start"
   /\ sr' = NONE /\ mp' = NONE /\ acc' = NONE /\ cls' = NONE /\ SR' = NONE
   /\ V' = NONE /\ Q' = NONE /\ occ' = NONE /\ ival' = NONE
-  /\ UNCHANGED <<iid, w, tn, orc, pm>>
+  /\ UNCHANGED <<iid, w, tn, wa, orc, pm>>
 
 \* the final state stutters; every other state must have a successor (the configuration checks deadlock,
 \* so a behaviour that stops before the last "done" is reported by TLC)
@@ -292,7 +296,7 @@ Emit ==
                    vexact |-> SeqSet(VExact(M, w, tn), M.N), qexact |-> QExact(M, w, tn),
                    oexact |-> SeqSet(OccExact(M, w, tn), M.N),
                    iexact |-> IF InitExact(M, w, tn) THEN 1 ELSE 0,
-                   v |-> orc.v, q |-> orc.q, occ |-> orc.occ, init |-> orc.init,
+                   v |-> orc[1].v, q |-> orc[1].q, occ |-> orc[1].occ, init |-> orc[1].init,
                    mq |-> Q,                                   \* machine's action values (also absorbing rows)
                    absall |-> SeqSet(AbsAll(M), M.N), implabs |-> SeqSet(ImplAbs(M), M.N),
                    rec |-> IF Discounted(M) THEN <<>> ELSE SeqSet(cls.rec, M.N),
@@ -303,10 +307,10 @@ Done == phase = "done" /\ round = 1
 
 \* (P1) the implementation-shaped machine ends in the oracle's values (two independent derivations)
 MachineMatchesOracle ==
-  Done => /\ V = orc.v
-          /\ occ = orc.occ
-          /\ ival = orc.init
-          /\ \A s \in NonAbs(M) : \A a \in Ac(M) : Q[s][a] = orc.q[s][a]
+  Done => /\ V = orc[1].v
+          /\ occ = orc[1].occ
+          /\ ival = orc[1].init
+          /\ \A s \in NonAbs(M) : \A a \in Ac(M) : Q[s][a] = orc[1].q[s][a]
 
 \* (P2) Bellman expectation equations: V = sum_a pi(a|s) Q(s,a); absorbing states are worth 0;
 \*      unavailable actions are worth -infinity (UNAV)
@@ -314,9 +318,9 @@ PiQ(m, ww, q, s) ==
   IF \E a \in Ac(m) : ww[s][a] > 0 /\ q[s][a] = NEG THEN NEG
   ELSE RSumTo([a \in Ac(m) |-> IF ww[s][a] = 0 THEN <<0, 1>> ELSE RMul(Norm(ww[s][a], QD), q[s][a])], m.K)
 Bellman ==
-  Done => /\ \A s \in NonAbs(M) : orc.v[s] = PiQ(M, w, orc.q, s)
-          /\ \A s \in AbsAll(M) : orc.v[s] = <<0, 1>>
-          /\ \A s \in NonAbs(M) : \A a \in Ac(M) : (a \notin Avail(M, s)) <=> (orc.q[s][a] = UNAV)
+  Done => /\ \A s \in NonAbs(M) : orc[1].v[s] = PiQ(M, w, orc[1].q, s)
+          /\ \A s \in AbsAll(M) : orc[1].v[s] = <<0, 1>>
+          /\ \A s \in NonAbs(M) : \A a \in Ac(M) : (a \notin Avail(M, s)) <=> (orc[1].q[s][a] = UNAV)
 
 \* (P3) the statement's characterisation of the -infinity set, transcribed with explicit classes:
 \*      closed communicating classes of the policy's chain among the non-absorbing states
@@ -329,10 +333,10 @@ ClosedClasses(m, ww) ==
 PaysNegative(m, ww, C) == \E c \in C : RPi(m, ww, c) < 0
 CanReach(m, ww, s, C) == s \in C \/ ReachPi(TM(m), ww, s) \cap C # {}
 NegInfIffNegativeClass ==
-  Done => IF Discounted(M) THEN \A s \in St(M) : orc.v[s] # NEG
+  Done => IF Discounted(M) THEN \A s \in St(M) : orc[1].v[s] # NEG
           ELSE LET cc == ClosedClasses(M, w) IN
                \A s \in St(M) \ AbsAll(M) :
-                  (orc.v[s] = NEG) <=> (\E C \in cc : PaysNegative(M, w, C) /\ CanReach(M, w, s, C))
+                  (orc[1].v[s] = NEG) <=> (\E C \in cc : PaysNegative(M, w, C) /\ CanReach(M, w, s, C))
 
 \* (P4) occupancy: flow equations on the finite part, +infinity exactly on closed classes reachable
 \*      from the initial support (undiscounted only)
@@ -340,12 +344,12 @@ OccupancyFlow ==
   Done =>
     LET ab  == AbsAll(M)
         cc  == IF Discounted(M) THEN {} ELSE ClosedClasses(M, w)
-        inf == {t \in St(M) : orc.occ[t] = POS}
+        inf == {t \in St(M) : orc[1].occ[t] = POS}
         g   == Gamma(M)
         flow(t) == RSumTo([s \in St(M) |->
                       IF s \in ab \/ s \in inf \/ PPi(M, w, s, t) = 0 THEN <<0, 1>>
-                      ELSE RMul(orc.occ[s], RMul(g, Norm(PPi(M, w, s, t), M.PD * QD)))], M.N)
-    IN /\ \A t \in St(M) \ inf : orc.occ[t] = RAdd(Norm(M.p0[t], M.ID), flow(t))
+                      ELSE RMul(orc[1].occ[s], RMul(g, Norm(PPi(M, w, s, t), M.PD * QD)))], M.N)
+    IN /\ \A t \in St(M) \ inf : orc[1].occ[t] = RAdd(Norm(M.p0[t], M.ID), flow(t))
        /\ \A t \in St(M) \ inf : \A s \in inf : PPi(M, w, s, t) = 0
        /\ \A t \in St(M) : (t \in inf) <=>
               (\E C \in cc : t \in C /\ \E s0 \in InitSupp(M) : s0 \notin ab /\ CanReach(M, w, s0, C))
@@ -353,11 +357,11 @@ OccupancyFlow ==
 \* (P5) duality: the initial value is the occupancy-weighted sum of the policy's expected rewards
 Duality ==
   Done =>
-    IF orc.init = NEG THEN \E s \in InitSupp(M) : orc.v[s] = NEG
-    ELSE /\ \A s \in St(M) \ AbsAll(M) : orc.occ[s] = POS => RPi(M, w, s) = 0
-         /\ orc.init = RSumTo([s \in St(M) |->
-                          IF s \in AbsAll(M) \/ orc.occ[s] = POS THEN <<0, 1>>
-                          ELSE RMul(orc.occ[s], Norm(RPi(M, w, s), M.PD * QD))], M.N)
+    IF orc[1].init = NEG THEN \E s \in InitSupp(M) : orc[1].v[s] = NEG
+    ELSE /\ \A s \in St(M) \ AbsAll(M) : orc[1].occ[s] = POS => RPi(M, w, s) = 0
+         /\ orc[1].init = RSumTo([s \in St(M) |->
+                          IF s \in AbsAll(M) \/ orc[1].occ[s] = POS THEN <<0, 1>>
+                          ELSE RMul(orc[1].occ[s], Norm(RPi(M, w, s), M.PD * QD))], M.N)
 
 \* (P6) instance filter: well-formed MDP, valid policy, no dead end, rewards <= 0 when undiscounted
 InstanceOK == phase = "init" =>
@@ -372,27 +376,26 @@ InstanceOK == phase = "init" =>
 
 \* (P8) rare weights: the -infinity / +infinity sets depend on the support only, and the entries
 \*      declared exact do not depend on the size of the rare weights (another surrogate, same answer)
+\*      (written over parameters: o = oracle of the surrogate, ab = oracle of the other surrogate)
+RareOK(m, ww, t, o, ab) ==
+  LET qx == QExact(m, ww, t) IN
+  /\ \A s \in St(m) : (ab.v[s] = NEG) <=> (o.v[s] = NEG)
+  /\ \A s \in St(m) : (ab.occ[s] = POS) <=> (o.occ[s] = POS)
+  /\ \A s \in VExact(m, ww, t) : ab.v[s] = o.v[s]
+  /\ \A s \in OccExact(m, ww, t) : ab.occ[s] = o.occ[s]
+  /\ \A s \in NonAbs(m) : \A a \in Ac(m) :
+        /\ (ab.q[s][a] = NEG) <=> (o.q[s][a] = NEG)
+        /\ qx[s][a] = 1 => ab.q[s][a] = o.q[s][a]
+  /\ InitExact(m, ww, t) => ab.init = o.init
+  /\ (ab.init = NEG) <=> (o.init = NEG)
 RareWeightsIrrelevantWhereExact ==
-  (Done /\ RareStates(M, tn) # {}) =>
-    LET alt == AltPolicy(M, w, tn)
-        va  == PolicyValue(M, alt, QD)
-        oa  == OccOracle(M, alt)
-        qx  == QExact(M, w, tn)
-    IN /\ \A s \in St(M) : (va[s] = NEG) <=> (orc.v[s] = NEG)
-       /\ \A s \in St(M) : (oa[s] = POS) <=> (orc.occ[s] = POS)
-       /\ \A s \in VExact(M, w, tn) : va[s] = orc.v[s]
-       /\ \A s \in OccExact(M, w, tn) : oa[s] = orc.occ[s]
-       /\ \A s \in NonAbs(M) : \A a \in Ac(M) :
-             /\ (QFromV(M, va, s, a) = NEG) <=> (orc.q[s][a] = NEG)
-             /\ qx[s][a] = 1 => QFromV(M, va, s, a) = orc.q[s][a]
-       /\ InitExact(M, w, tn) => InitialValue(M, va) = orc.init
-       /\ (InitialValue(M, va) = NEG) <=> (orc.init = NEG)
+  (Done /\ RareStates(M, tn) # {}) => RareOK(M, w, tn, orc[1], orc[2])
 
 \* (P9) history independence: the second evaluation by the same policy object, on the permuted
 \*      presentation, ends in the (permuted) oracle values as a fresh evaluation does
 ReuseMatchesFresh ==
   (phase = "done" /\ round = 2) =>
-    /\ \A i \in St(M) : V[i] = orc.v[M.sp[i]] /\ occ[i] = orc.occ[M.sp[i]]
-    /\ ival = orc.init
-    /\ \A i \in St(M) : M.abs[M.sp[i]] = 0 => \A j \in Ac(M) : Q[i][j] = orc.q[M.sp[i]][M.ap[j]]
+    /\ \A i \in St(M) : V[i] = orc[1].v[M.sp[i]] /\ occ[i] = orc[1].occ[M.sp[i]]
+    /\ ival = orc[1].init
+    /\ \A i \in St(M) : M.abs[M.sp[i]] = 0 => \A j \in Ac(M) : Q[i][j] = orc[1].q[M.sp[i]][M.ap[j]]
 =============================================================================
